@@ -89,3 +89,65 @@ package authenticode
 //@        off == sh.PointerToRawData + (sh.SizeOfRawData - remaining) && rm == 0
 //@   loop 0 sig "for remaining > 0" invariant 0 <= remaining && remaining <= sh.SizeOfRawData && position == sh.PointerToRawData + (sh.SizeOfRawData - remaining) && \
 //@        (remaining > 0 ==> (sh.SizeOfRawData - remaining) % len(h.pageBuf) == 0) && len(h.pageBuf) >= 1
+
+//@ func readAndHash
+//@   property C11 C08
+//@   nopanic
+//@   requires r != nil && n >= 0
+//@   ensures @exactly_n_bytes_on_success ret1 == nil ==> len(ret0) == n
+//@   before call invoke io.Writer.Write(w, p): assert @everything_read_is_hashed w == d && len(p) == n
+//@   allocbound 0 n
+//@   modifies sink r, sink d
+//@
+//@ func readDosHeader
+//@   property C11
+//@   nopanic
+//@   requires r != nil
+//@   ensures @pe_offset_is_a_32_bit_value ret1 == nil ==> 0 <= ret0 && ret0 <= 4294967295
+//@
+//@ func readCoffHeader
+//@   property C11
+//@   nopanic
+//@   requires r != nil
+//@   ensures ret1 == nil ==> ret0 != nil
+//@
+//@ func align32
+//@   property C11
+//@   nopanic
+//@   requires align != 0
+//@   modifies nothing
+//@
+//@ func readOptHeader
+//@   property C11 C08 C05
+//@   nopanic
+//@   requires r != nil && d != nil && fh != nil && 0 <= peStart && peStart <= 4294967295
+//@   ghost writes int = 0
+//@   before call invoke io.Writer.Write(w, p): assert @hashed_up_to_the_checksum writes == 0 ==> w == d && samearr(p, buf) && len(p) == 64
+//@   before call invoke io.Writer.Write(w, p): assert @checksum_field_skipped writes == 1 ==> w == d && samearr(p, buf) && len(p) == dd4Start - 68 && (dd4Start == 128 || dd4Start == 144)
+//@   before call invoke io.Writer.Write(w, p): assert @certificate_table_entry_skipped writes == 2 ==> w == d && samearr(p, buf) && len(p) == len(buf) - dd4Start - 8
+//@   before call invoke io.Writer.Write(w, p): assert @three_pieces writes <= 2
+//@   on call invoke io.Writer.Write(_, _) ret (n, e): writes = writes + 1
+//@   ensures @all_three_pieces_hashed ret1 == nil ==> writes == 3 && ret0 != nil
+//@   ensures @alignment_usable_as_a_divisor ret1 == nil ==> ret0.fileAlign != 0
+//@   ensures @certificate_entry_position ret1 == nil ==> (ret0.posDDCert == peStart + 24 + 128 || ret0.posDDCert == peStart + 24 + 144) && \
+//@        0 <= ret0.certStart && ret0.certStart <= 4294967295 && 0 <= ret0.certSize && ret0.certSize <= 4294967295
+//@   allocbound 0 65535
+//@
+//@ func readTrailer
+//@   property C08 C05 C11
+//@   nopanic
+//@   requires r != nil && d != nil && 0 <= lastSection && lastSection <= 1099511627776 && 0 <= certStart && certStart <= 4294967295 && 0 <= certSize && certSize <= 4294967295
+//@   ghost hashed int = 0
+//@   ghost copies int = 0
+//@   before call io.CopyN(w, src, n): assert @only_the_bytes_before_the_certificate_table_are_hashed \
+//@        (copies == 0 ==> w == d && src == r && n == certStart - lastSection) && (copies == 1 ==> w == ioutil.Discard && src == r && n == certSize) && copies <= 1
+//@   on call io.CopyN(_, _, _) ret (n, e): copies = copies + 1
+//@   before call io.Copy(w, src): assert @unsigned_image_hashed_to_the_end_signed_image_must_end_with_its_table src == r && (certSize == 0 ==> w == d) && (certSize != 0 ==> w == ioutil.Discard && copies == 2)
+//@   ensures @signed_image_digest_stops_at_the_certificate_table ret1 == nil && certSize != 0 ==> ret0 == certStart && copies == 2
+//@
+//@ func readSections
+//@   property C11
+//@   nopanic
+//@   requires r != nil && d != nil && fh != nil && hvals != nil && 0 <= hvals.secTblStart && hvals.secTblStart <= 8589934592 && 0 <= hvals.sizeOfHdr && hvals.sizeOfHdr <= 4294967295 && hvals.fileAlign != 0
+//@   allocbound 0 65535 * 40
+//@   loop 0 sig "for i, section := range sections" invariant -1 <= rangeindex && rangeindex < len(sections) && hvals.fileAlign != 0
